@@ -92,13 +92,26 @@ class ReachProbes:
             setattr(owner, name, w)
 
         wrap(fve, "join_two_vertices", "join_two_vertices-ran")
-        wrap(fsk.Skeleton, "do_t3_transition", "do_t3_transition-ran")
+        # T3 transitions: also remember which vertices they merge away (facts for a cause class)
+        self.t3_removed = set()
+        orig_t3 = getattr(fsk.Skeleton, "do_t3_transition", None)
+        if orig_t3 is not None:
+            @functools.wraps(orig_t3)
+            def t3(sk_self, artifact, *a, **k):
+                probes.counts["do_t3_transition-ran"] = probes.counts.get("do_t3_transition-ran", 0) + 1
+                try:
+                    probes.t3_removed.update(int(x) for x in artifact)
+                except Exception:
+                    pass
+                return orig_t3(sk_self, artifact, *a, **k)
+            fsk.Skeleton.do_t3_transition = t3
         wrap(fc.Cell, "replace_vertex", "Cell.replace_vertex-ran")
         wrap(fe.SmallEdge, "replace_vertex", "SmallEdge.replace_vertex-ran")
         wrap(fe.SmallEdge, "unregister", "SmallEdge.unregister-ran")
 
     def reset(self):
         self.counts = {}
+        self.t3_removed = set()
 
 
 class Unraisable:
